@@ -9,7 +9,7 @@ import compiles
 import models
 import vlib
 
-FAMS = ["conv_chain", "conv_chain_big", "single", "diamond", "mixed_cpu", "lut_heavy", "conv_chain_big", "single"]
+FAMS = ["conv_chain", "conv_chain_big", "single", "diamond", "mixed_cpu", "lut_heavy", "conv_chain_big", "single", "lut_mixed"]
 
 
 def arena_cache_of(job):
